@@ -36,8 +36,14 @@ def gen_template(rng):
                     args.append("%s + %s" % (s, c0) if c0 >= 0 else "%s - %s" % (s, -c0))
             else:
                 args.append(rng.choice(["0.45", "1", "0.0", "2.5"]))
+        if args and rng.random() < 0.3:
+            args = args + [rng.choice(["phi={%s}" % rng.choice(pars), "k=0.5", "phi=2 * {%s} + 1" % rng.choice(pars), "flag=True"])]
         ops.append((rng.choice(GATES), args, modes))
     return pars, ops
+
+
+def kwtext(k, v):
+    return "%s=%s" % (k, "True" if v is True else "False" if v is False else repr(float(v)))
 
 
 def script(ops, header="name prog\nversion 1.0\n", target=None):
@@ -86,8 +92,8 @@ def check_case(rng, impl, quick):
     iops = [inst.operations[i] for i in perm]
     lines = ["name prog", "version %s" % tver, ""]
     for o in iops:
-        a = ", ".join(repr(float(x)) if not isinstance(x, (int,)) or isinstance(x, bool) else str(x) for x in o.get("args", []))
-        lines.append("%s%s | [%s]" % (o["op"], "(%s)" % a if "args" in o and o["args"] else "", ", ".join(str(int(m)) for m in o["modes"])))
+        a = ", ".join([repr(float(x)) if not isinstance(x, (int,)) or isinstance(x, bool) else str(x) for x in o.get("args", [])] + [kwtext(k, v) for k, v in o.get("kwargs", {}).items()])
+        lines.append("%s%s | [%s]" % (o["op"], "(%s)" % a if a else "", ", ".join(str(int(m)) for m in o["modes"])))
     ptext = "\n".join(lines) + "\n"
     desc = {"template": ttext, "values": sigma, "program": ptext}
     try:
@@ -106,7 +112,7 @@ def check_case(rng, impl, quick):
     for g, args, modes in ops:
         for a in args:
             for p in used:
-                if "{%s}" % p in a:
+                if "{%s}" % p in a and "=" not in a:       # keyword arguments play no role in matching
                     appearing.add(p)
     for p in appearing:
         if p not in res:
@@ -143,8 +149,8 @@ def check_case(rng, impl, quick):
         def render(ops2, version=tver, target=None):
             ls = ["name prog", "version %s" % version] + (["target %s" % target] if target else []) + [""]
             for o in ops2:
-                a = ", ".join(repr(float(x)) if not isinstance(x, int) or isinstance(x, bool) else str(x) for x in o.get("args", []))
-                ls.append("%s%s | [%s]" % (o["op"], "(%s)" % a if "args" in o and o["args"] else "", ", ".join(str(int(m)) for m in o["modes"])))
+                a = ", ".join([repr(float(x)) if not isinstance(x, int) or isinstance(x, bool) else str(x) for x in o.get("args", [])] + [kwtext(k, v) for k, v in o.get("kwargs", {}).items()])
+                ls.append("%s%s | [%s]" % (o["op"], "(%s)" % a if a else "", ", ".join(str(int(m)) for m in o["modes"])))
             return "\n".join(ls) + "\n"
         e1 = [dict(o) for o in iops]
         e1[k]["op"] = "Zgate" if e1[k]["op"] != "Zgate" else "Vgate"
